@@ -767,15 +767,17 @@ func c07xProgram(r *explore.Run, p *prog) {
 					continue
 				}
 				r.Count("evaluations", 1)
-				var leaves []c07xLeaf
-				for _, p := range wgen.XProbes(g.Name, g.T) {
-					cl := map[string]string{"f16": "half", "f32": "float", "i32": "int", "u32": "uint"}[p.S]
-					if p.Atomic {
-						cl = "atomic<" + cl + ">"
+				mk := func(ps []wgen.XProbe) (out []c07xLeaf) {
+					for _, p := range ps {
+						cl := map[string]string{"f16": "half", "f32": "float", "i32": "int", "u32": "uint"}[p.S]
+						if p.Atomic {
+							cl = "atomic<" + cl + ">"
+						}
+						out = append(out, c07xLeaf{Path: p.Path, Off: p.Off, Width: p.Width, Class: cl})
 					}
-					leaves = append(leaves, c07xLeaf{Path: p.Path, Off: p.Off, Width: p.Width, Class: cl})
+					return
 				}
-				c07xHLSLAddresses(a, leaves, g.RW, func(msg string) {
+				c07xHLSLAddresses(a, mk(wgen.XProbes(g.Name, g.T)), mk(wgen.XAllLeaves(g.Name, g.T)), g.RW, func(msg string) {
 					cls, _, _ := strings.Cut(msg, " :: ")
 					violate(seen, "C07|hlsl-address|"+c07xClass(cls)+"|"+coarse, "HLSL byte-address accesses of "+xc.Sig+" do not coincide with the WGSL offsets ("+g.Name+"): "+msg, nil)
 				})
